@@ -164,11 +164,13 @@ class NP(object):
         if isinstance(x, (OutArray, Opaque)):
             return x
         a = _obj(x)
-        return a.copy() if a is x else a
+        return a.copy(order='K') if a is x else a       # np.array(x): a copy that keeps the memory layout (order='K')
 
     def asarray(self, x, dtype=None):
         if isinstance(x, InArray):
             return x                    # no copy when the dtype already matches: the memory layout of the argument is kept
+        if isinstance(x, _np.ndarray) and x.dtype == object:
+            return x                    # likewise for an array of the executor (a caller's float64 array): the SAME object comes back
         return self.array(x, dtype)
 
     def ascontiguousarray(self, x, dtype=None):
